@@ -1,7 +1,7 @@
 (* C02 — k-centers picks farthest points, never widens the radius, stops exactly on cue,
    the triangle-inequality shortcut changes nothing, and the result is a 2-approximation. *)
 From Coq Require Import List ZArith QArith.
-From EV Require Import Cluster ClusterCase ClusterBase ClusterInv ClusterPam ClusterKC ClusterTop ClusterExample.
+From EV Require Import KcGuardBase KcGuardGen KcArgs KcGuardProofs Cluster ClusterCase ClusterBase ClusterInv ClusterPam ClusterKC ClusterTop ClusterExample.
 Import ListNotations.
 
 (* starts from the first frame ... *)
@@ -69,6 +69,27 @@ Theorem c02_guard_false_means : forall nclu cutoff s,
   (exists k, nclu = Some k /\ (k <= length (fst s))%nat) \/ maxdist (snd s) <= cutoff.
 Proof. exact guard_false_meaning. Qed.
 Print Assumptions c02_guard_false_means.
+
+(* the guard of the model's loop IS the test of the source's while loop (Gen/KcGuardGen.v is
+   regenerated from enspara/cluster/kcenters.py on every run: `<` vs `<=`, `and` vs `or` matter) *)
+Theorem c02_model_guard_is_source_while_test : forall nclu cutoff (s : st),
+  gen_guard (length (fst s)) nclu (maxdist (snd s)) cutoff = kc_guard nclu cutoff s.
+Proof. exact gen_guard_is_model_guard. Qed.
+Print Assumptions c02_model_guard_is_source_while_test.
+
+(* normalisation of the stopping criteria as translated from the source: "either, both" *)
+Theorem c02_stopping_criteria_normalisation : forall nc dc,
+  effective nc dc =
+  match nc, dc with
+  | NcNone, DcNone => None
+  | NcNone, DcVal r => Some (None, r)
+  | NcInf, DcNone => Some (None, 0)
+  | NcInf, DcVal r => if Qeq_bool r 0 then None else Some (None, r)
+  | NcInt k, DcNone => Some (Some k, 0)
+  | NcInt k, DcVal r => Some (Some k, r)
+  end.
+Proof. exact effective_spec. Qed.
+Print Assumptions c02_stopping_criteria_normalisation.
 
 (* the triangle-inequality shortcut returns the same centres, labels and distances *)
 Theorem c02_shortcut_same_result_cold : forall D, (forall f, D f f == 0) -> (forall c f, c <> f -> 0 < D c f) ->
